@@ -25,6 +25,7 @@
 #include "common.hh"
 #include <gmpxx.h>
 #include <cmath>
+#include <algorithm>
 #include <limits>
 
 using namespace Parma_Polyhedra_Library;
@@ -608,6 +609,71 @@ int run_one_adj(const char* ty, const std::string& op, const std::string& si, co
   return 0;
 }
 
+// ---- Interval<T native>::assign(const From&) from intervals of OTHER boundary types (Rational_Interval, the mpz
+// interval of Z_Box, the int64_t interval): the conversions assign_r(T&, mpq_class | mpz_class | int64_t, dir) followed by
+// adjust_boundary — for mpq_class this is literally the rounding instance Rounding.native of the Lean model — as done by
+// Int8_Box(Rational_Box) / Int8_Box(Z_Box) and by every refinement of a native box with a constraint.
+//   <id> <ty> cvt:<Q|Z|l> <source interval> - <R> <ok>
+template <typename ITV, typename SRC>
+void cvt_one(Out& o, const char* srcname, const SRC& x) {
+  ITV z;
+  NatTr<ITV>::prep(z);
+  z.assign(x);
+  o.ev(std::string("cvt:") + srcname, show_itv(x), "-", show_itv(z), z.OK());
+}
+template <typename ITV, typename SRC, typename V>
+void cvt_all(Out& o, const char* srcname, const std::vector<V>& vals, bool can_open) {
+  V dummy = vals[0];
+  cvt_one<ITV, SRC>(o, srcname, make_raw<SRC, V>(true, false, dummy, false, false, dummy, false));
+  cvt_one<ITV, SRC>(o, srcname, make_raw<SRC, V>(false, true, dummy, false, true, dummy, false));
+  const int nf = can_open ? 2 : 1;
+  for (size_t i = 0; i < vals.size(); ++i) {
+    for (int f = 0; f < nf; ++f) {
+      cvt_one<ITV, SRC>(o, srcname, make_raw<SRC, V>(false, false, vals[i], f, true, dummy, false));
+      cvt_one<ITV, SRC>(o, srcname, make_raw<SRC, V>(false, true, dummy, false, false, vals[i], f));
+    }
+    for (size_t j = i; j < vals.size(); ++j)
+      for (int f = 0; f < nf; ++f)
+        for (int g = 0; g < nf; ++g) {
+          if (i == j && (f || g)) continue;
+          cvt_one<ITV, SRC>(o, srcname, make_raw<SRC, V>(false, false, vals[i], f, false, vals[j], g));
+        }
+  }
+}
+template <typename ITV>
+void run_cvt(const char* ty) {
+  typedef typename ITV::boundary_type T;
+  Out o(ty, "");
+  o.n = 600000000;
+  const bool sg = std::numeric_limits<T>::is_signed;
+  mpz_class mn(sg ? std::to_string(static_cast<long long>(std::numeric_limits<T>::min()))
+                  : std::to_string(static_cast<unsigned long long>(std::numeric_limits<T>::min())));
+  mpz_class mx(sg ? std::to_string(static_cast<long long>(std::numeric_limits<T>::max()))
+                  : std::to_string(static_cast<unsigned long long>(std::numeric_limits<T>::max())));
+  // rationals around the two limits and around zero, sorted
+  std::vector<mpq_class> q;
+  const mpq_class offs[] = {mpq_class(-3, 2), mpq_class(-1), mpq_class(-1, 2), mpq_class(0), mpq_class(1, 3), mpq_class(1, 2),
+                            mpq_class(1), mpq_class(3, 2)};
+  q.push_back(mpq_class(mn) * 2 - 7);
+  for (size_t k = 0; k < 8; ++k) q.push_back(mpq_class(mn) + offs[k]);
+  if (mn < -4) for (size_t k = 0; k < 8; ++k) q.push_back(offs[k]);
+  for (size_t k = 0; k < 8; ++k) q.push_back(mpq_class(mx) + offs[k]);
+  q.push_back(mpq_class(mx) * 2 + 7);
+  q.push_back(mpq_class(mpz_class("1000000000000000000000000000001"), 3));
+  std::sort(q.begin(), q.end());
+  q.erase(std::unique(q.begin(), q.end()), q.end());
+  cvt_all<ITV, QI, mpq_class>(o, "Q", q, true);
+  std::vector<mpz_class> z;
+  for (size_t k = 0; k < q.size(); ++k) if (q[k].get_den() == 1) z.push_back(q[k].get_num());
+  cvt_all<ITV, ZI, mpz_class>(o, "Z", z, false);
+  if (sizeof(T) < 8) {
+    std::vector<int64_t> w;
+    for (size_t k = 0; k < z.size(); ++k) if (z[k].fits_slong_p()) w.push_back(static_cast<int64_t>(z[k].get_si()));
+    cvt_all<ITV, I64I, int64_t>(o, "l", w, false);
+  }
+  o.J.line(std::string("# ") + ty + " cvt events=" + std::to_string(o.n - 600000000));
+}
+
 // ---- Box<Interval<int8_t, Native_Integer_Box_Interval_Info>> (Int8_Box): chains of affine_image on 2-dim boxes
 // near the limits.   <id> b box:<k>:<a>:<b>:<c>:<d> <I0>;<I1> - <R0>;<R1> | E <ok>
 //   ( x_k := (a*x0 + b*x1 + c) / d )
@@ -793,6 +859,11 @@ int main(int argc, char** argv) {
       run_adj<int8_t>("b", g8);
       run_adj<uint8_t>("B", gu8);
       run_adj<int64_t>("l", g64);
+      run_cvt<I8I>("b");
+      run_cvt<U8I>("B");
+      run_cvt<I16I>("h");
+      run_cvt<I32I>("i");
+      run_cvt<I64I>("l");
     }
   }, 280);
 }
